@@ -424,7 +424,7 @@ std::vector<std::string> Cells(int tier) {
 
 bool CellBounds(const vx::Cell& cell, int tier, vx::Bounds& b) {
   const int n = cell.Int("n");
-  b.P = n <= 1 ? 99 : (tier == 0 ? 3 : 99);
+  b.P = 99;  // every interleaving in both tiers
   b.S = 1;  // costs nothing where no weak CAS is executed, and a weak CAS may appear anywhere
   b.T = 0;
   return true;
